@@ -507,8 +507,13 @@ _RULE_ADDENDA_9 = {
     "C05": " The mutator also leaves lists present but empty; the add notification may carry an odd (empty, very deep) address of the new entity.",
     "C06": " Complete notifications may leave entity [0] out (down to an empty list); the feature information list comes in any order in a third of the messages.",
     "C11": " Origin local-mirror: a watched data set is handed in as the new data of a local partial update. Use case entries of the peer may lack the device part.",
-    "C15": " Bus histories and handler scripts (un)subscribe on the core level too (build-tag hook; 1 in 3), the core level subscription of an object being judged as a subscriber of its own (delivery = on the publishing goroutine); in the levels run core level handlers (un)subscribe (level, handler) pairs from inside Publish - touched pairs 0 or 1 delivery, all others exactly the subscriptions in force.",
+    "C15": " Levels run: a third of the publications repeat the previous payload exactly; a quarter of the handlers are comparable struct values with a value receiver. Bus histories and handler scripts (un)subscribe on the core level too (build-tag hook; 1 in 3), the core level subscription of an object being judged as a subscriber of its own (delivery = on the publishing goroutine); in the levels run core level handlers (un)subscribe (level, handler) pairs from inside Publish - touched pairs 0 or 1 delivery, all others exactly the subscriptions in force.",
     "C18": " In half of the cells commands with filters were built from the same function object before the command under test.",
+    "C03": " The complete removal notification also announces, in half of the cases, an entity the peer did not have so far.",
+    "C10": " The bookkeeping snapshot includes the stack's own node management subscription towards the peer.",
+    "C12": " The header of a write asks for an acknowledgement, carries no ackRequest element, or declines it explicitly (ackRequest false); in the last two forms an approved write is applied without any result.",
+    "C13": " Operation respLate: a response that arrives after the peer announced its entity as removed still re-enables sending.",
+    "C14": " One local feature lives on a nested entity [1,1] and has the number, type and role of a feature of [1].",
 }
 for _k, _v in _RULE_ADDENDA_9.items():
     PROPS[_k]["rule"] += _v
